@@ -389,7 +389,7 @@ class HistoryGen:
     """A history: list of call descriptions (see c17_worker) + per call the abstract model call."""
     # families aimed at one class of leak each; c17.py makes every history contain some of them (round robin), so that a
     # quick run does not depend on luck to contain each family several times
-    TARGETED = ["c_revalidate", "c_defaults", "c_dangling_reference", "c_lazy_readers", "c_union_hints", "c_legacy_defaults", "c_redefined_names",
+    TARGETED = ["c_fixed_decimal_sequence", "c_revalidate", "c_defaults", "c_dangling_reference", "c_lazy_readers", "c_union_hints", "c_legacy_defaults", "c_redefined_names",
                 "c_writer_object", "c_piecewise_use", "c_read_union_of_records", "c_read_decimal_focus"]
 
     def __init__(self, rng, ncalls, must=()):
@@ -612,8 +612,11 @@ class HistoryGen:
             ("dy", "bytes", ["\u00ff\u0001", "", "xyz"][v]),
             ("daa", {"type": "array", "items": {"type": "array", "items": "string"}}, [["x"], ["y", "z"]][: v % 2 + 1]),
             ("dmm", {"type": "map", "values": {"type": "array", "items": "long"}}, {"p": [1, 2], "q": []}),
+            # unions whose FIRST branch is an array / a map, with a non-empty default
+            ("dua", [{"type": "array", "items": "int"}, "null"], [[1, 2], [9], [3, 4, 5]][v]),
+            ("dum", [{"type": "map", "values": "string"}, "null"], [{"k": "v"}, {"a": "b", "c": "d"}, {"z": ""}][v]),
         ]
-        keep = [c for c in cands if rng.random() < 0.6 or c[0] in ("da", "dm")]
+        keep = [c for c in cands if rng.random() < 0.6 or c[0] in ("da", "dm", "dua", "dum")]
         if any(c[0] == "dar" for c in keep) and not any(c[0] == "dr" for c in keep):
             keep = [c for c in keep if c[0] != "dar"]
         req = [{"name": "n", "type": "long"}]
@@ -729,6 +732,39 @@ class HistoryGen:
                 else:
                     self.emit({"api": "mutate", "target": d, "action": "delete", "key": f}, "")
             use()
+
+    # --- fixed decimals: same size, same byte length, different bit lengths, both signs, in a row ----------------------
+    def c_fixed_decimal_sequence(self):
+        rng = self.rng
+        size = rng.choice([2, 4, 8])
+        import math
+        prec = int(math.floor(math.log10(2) * (8 * size - 1)))
+        scale = rng.randrange(0, min(prec, 3) + 1)
+        raw = {"type": "record", "name": rng.choice(["R", "Dec"]), "fields": [
+            {"name": "d", "type": {"type": "fixed", "name": "D", "size": size, "logicalType": "decimal", "precision": prec, "scale": scale}},
+            {"name": "n", "type": "long"}]}
+        arg = raw
+        if rng.random() < 0.5:
+            out = self.fresh_slot("P")
+            self.emit({"api": "parse_schema", "schema": raw, "$out": out}, "CParse", expect="ok")
+            self.parsed.append((out, raw, {"D": raw["fields"][0]["type"]}, False))
+            arg = {"$slot": out}
+        nbytes = rng.randrange(1, size + 1)
+        lo = 0 if nbytes == 1 else 2 ** (8 * (nbytes - 1) - 1)      # magnitudes whose bit length + sign bit needs exactly nbytes bytes
+        hi = min(2 ** (8 * nbytes - 1) - 1, 10 ** prec - 1)
+        import decimal
+        for _ in range(rng.randrange(3, 6)):
+            bits = rng.randrange(max(lo.bit_length(), 1), hi.bit_length() + 1)
+            mag = min(hi, max(lo, rng.randrange(2 ** (bits - 1), 2 ** bits)))
+            val = decimal.Decimal(mag * rng.choice([1, -1, -1])).scaleb(-scale)
+            rec = {"d": val, "n": rng.randrange(100)}
+            k = rng.choice(["schemaless_writer", "schemaless_writer", "writer", "json_writer", "validate"])
+            if k == "schemaless_writer":
+                self.emit({"api": k, "schema": arg, "record": rec, "kw": {}}, "CWrite", expect="ok")
+            elif k == "validate":
+                self.emit({"api": k, "schema": arg, "datum": rec, "kw": {"raise_errors": False}}, "CValidate", expect="any")
+            else:
+                self.emit({"api": k, "schema": arg, "records": [rec], "kw": {}}, "CWrite" if k == "writer" else "CJsonWrite", expect="any")
 
     # --- piecewise-parsed schemas in use -----------------------------------------------------------------------
     def c_piecewise_use(self):
@@ -1215,7 +1251,7 @@ class HistoryGen:
 
     KINDS = [("c_parse", 5), ("c_schemaless_writer", 3), ("c_schemaless_reader", 3), ("c_read_truncated", 1), ("c_read_union_of_records", 2),
              ("c_defaults", 5), ("c_dangling_reference", 2), ("c_lazy_readers", 1),
-             ("c_union_hints", 2), ("c_legacy_defaults", 2), ("c_redefined_names", 4), ("c_writer_object", 1), ("c_piecewise_use", 2), ("c_revalidate", 1),
+             ("c_union_hints", 2), ("c_legacy_defaults", 2), ("c_redefined_names", 4), ("c_writer_object", 1), ("c_piecewise_use", 2), ("c_revalidate", 1), ("c_fixed_decimal_sequence", 1),
              ("c_read_decimal_focus", 3), ("c_writer", 3), ("c_reader", 2), ("c_reader_truncated", 1), ("c_validate", 3),
              ("c_canonical", 1), ("c_fingerprint", 1), ("c_json_writer", 2), ("c_json_reader", 1), ("c_generate", 1), ("c_load", 2)]
 
